@@ -202,6 +202,43 @@ def one_program(acc, probe, rng, cli):
     return files, listing
 
 
+def overlay_cases(acc, probe, rng, count):
+    """Overlays: segments that are stored at different places but run at the same address, each importing the same file. The
+    listing of that file must hold every byte every overlay emitted for it (conservation), at the run address."""
+    for _ in range(count):
+        n = rng.randrange(2, 5)
+        pc = rng.choice([0xC000, 0x0200, 0x8000])
+        lines = ['.define segment { name = "o%d" start = $%04x pc = $%04x }' % (i, 0x1000 * (i + 1), pc) for i in range(n)]
+        order = list(range(n))
+        rng.shuffle(order)
+        for i in order:
+            lines.append('.segment "o%d" { .import * as ov%d from "shared.asm" }' % (i, i))
+        body = [("x: lda #%d" % rng.randrange(256), 2), ("    sta $d0%02x" % rng.randrange(64), 3)]
+        if rng.random() < 0.5:
+            body.append(("    .byte %s" % ", ".join(str(rng.randrange(256)) for _ in range(rng.randrange(1, 9))), None))
+        body.append(("    rts", 1))
+        nbytes = sum(b if b is not None else t.count(",") + 1 for t, b in body)
+        files = {"main.asm": "\n".join(lines) + "\n", "shared.asm": "\n".join(t for t, _ in body) + "\n"}
+        acc.evaluations += 1
+        r = probe.ask({"files": files, "ops": ["parse", "codegen", "listing"], "opts": {"pc": 0x2000}})
+        c = r.get("codegen") or {}
+        if r.get("parse", {}).get("diags") or c.get("diags") or not isinstance(c.get("listing"), dict):
+            acc.inconc("overlay project did not assemble: %s" % str(c.get("diags"))[:120])
+            continue
+        text = c["listing"].get("shared.asm", "")
+        listed = 0
+        for row in text.split("\n"):
+            m = re.match(r"\s*\d+ ([0-9A-F]{4}): (.{0,24})", row)      # 8 bytes per row: 24 columns of hex pairs, then the source text
+            if m:
+                listed += len(re.findall(r"(?:^| )([0-9A-F]{2})(?= |$)", m.group(2)))
+        if listed != n * nbytes:
+            acc.violation("listing|bytes-missing|overlays", "%d overlays emit %d bytes each from shared.asm, its listing shows %d bytes" % (n, nbytes, listed),
+                          {"files": files, "listing": text})
+        else:
+            acc.nontriv("overlay", tuple(sorted(files.items())))
+            acc.count("overlay_cases_ok")
+
+
 def same_stem_cases(acc, rng, count):
     """`mos build` names a listing after its source file: every source file of a project whose files share a stem (same name in
     two directories, names that differ only in the extension) must still have a listing of its own lines."""
@@ -241,6 +278,7 @@ def shard(idx, n, seed, tier, params):
     rng = rng_for(seed, "c11", idx)
     t_end = time.time() + params["budget"]
     same_stem_cases(acc, rng, max(1, (24 if tier == "quick" else 600) // n))
+    overlay_cases(acc, probe, rng, max(2, (200 if tier == "quick" else 5000) // n))
     for i in range(params["programs"] // n):
         if time.time() > t_end:
             acc.count("budget_cut")
@@ -263,7 +301,8 @@ def main(tier, seed):
              "truth. Source-map entries must equal it as a multiset in both macro attribution modes; listings (bytes per row 1..16) must "
              "show every source line once and in order, after each address the bytes of that line in emission order, every emitted byte "
              "exactly once; every 15th program is also built by `mos build` with listing = true and the .lst files compared; "
-             "projects whose source files share a file stem are built by `mos build`: every source file must have a listing of its own lines. "
+             "projects whose source files share a file stem are built by `mos build`: every source file must have a listing of its own lines; "
+             "overlays (segments stored at different places that run at the same address, each importing the same file): the listing of that file holds every byte of every overlay. "
              "Non-trivial = distinct program whose source map matched in both modes.",
         assumptions=["one statement per line (plain layout), so line <-> statement is exact",
                      "a row's address is the target address of its first byte; rows of a line whose bytes are not contiguous (loop bodies) continue in emission order"])
